@@ -276,3 +276,65 @@ impl ArrivalBound for Curve {
 
 
 } // verus!
+
+// ---- Curve::from_iter (C10): the running maximum makes any distance vector a monotone delta-min prefix
+verus! {
+pub open spec fn run_max(s: Seq<Duration>, k: int) -> int decreases k { if k <= 0 { s[0].v() } else { let r = run_max(s, k - 1); if s[k].v() > r { s[k].v() } else { r } } }
+pub proof fn lemma_run_max_mono(s: Seq<Duration>, i: int, j: int)
+    requires 0 <= i <= j < s.len()
+    ensures run_max(s, i) <= run_max(s, j), s[j].v() <= run_max(s, j)
+    decreases j
+{ if i < j { lemma_run_max_mono(s, i, j - 1); } }
+/// R15: `iter.into_iter().collect()` of a finite sequence
+pub fn vf_to_vec(xs: &[Duration]) -> (v: Vec<Duration>) ensures v@ == xs@
+{
+    let mut v: Vec<Duration> = Vec::new();
+    let mut i: usize = 0;
+    while i < xs.len() invariant i <= xs@.len(), v@ == xs@.subrange(0, i as int) decreases xs@.len() - i
+    { v.push(xs[i]); i += 1; }
+    proof { assert(xs@.subrange(0, xs@.len() as int) =~= xs@); }
+    v
+}
+impl Curve {
+//@item src/arrival/curve.rs :: impl FromIterator<Duration> for Curve / fn from_iter
+    fn from_iter/*@R15: <I: IntoIterator<Item = Duration>>(iter: I) @*/(iter: &[Duration])/*@.*/ -> /*+*/(c: /*-*/Curve/*+*/)
+        requires iter@.len() >= 1
+        ensures c.min_distance@.len() == iter@.len(),
+                forall |k: int| 0 <= k < iter@.len() ==> dm(c.min_distance@, k) == #[trigger] run_max(iter@, k),
+                forall |i: int, j: int| 0 <= i <= j < iter@.len() ==> dm(c.min_distance@, i) <= dm(c.min_distance@, j)/*-*/
+    {
+        let mut distances: Vec<Duration> = /*@R15: iter.into_iter().collect() @*/vf_to_vec(iter)/*@.*/;
+        // ensure the min-distance function is monotonic
+        /*@R16: for i in 1..distances.len() @*/let vf_end = distances.len();
+        for i in 1..vf_end/*@.*//*+*/
+            invariant distances@.len() == iter@.len(), vf_end == distances@.len(), distances@[0] == iter@[0],
+                      forall |k: int| 0 <= k < i && k < iter@.len() ==> dm(distances@, k) == #[trigger] run_max(iter@, k),
+                      forall |k: int| i <= k < iter@.len() ==> #[trigger] distances@[k] == iter@[k],
+                      iter@.len() >= 1/*-*/
+        {
+//@+
+            proof { assert(distances@[i as int] == iter@[i as int]); assert(dm(distances@, i - 1) == run_max(iter@, i - 1)); }
+            let ghost old_d = distances@;
+//@-
+            distances[i] = distances[i].max(distances[i - 1]);
+//@+
+            proof {
+                assert(dm(distances@, i as int) == run_max(iter@, i as int));
+                assert forall |k: int| 0 <= k < i + 1 && k < iter@.len() implies dm(distances@, k) == #[trigger] run_max(iter@, k) by { if k < i { assert(distances@[k] == old_d[k]); assert(dm(old_d, k) == run_max(iter@, k)); } }
+            }
+//@-
+        }
+        /*@R6: assert! @*/vf_assert/*@.*/(!distances.is_empty());
+//@+
+        proof {
+            assert forall |k: int| 0 <= k < iter@.len() implies dm(distances@, k) == #[trigger] run_max(iter@, k) by { if k == 0 { assert(distances@[0] == iter@[0]); } }
+            assert forall |i: int, j: int| 0 <= i <= j < iter@.len() implies dm(distances@, i) <= dm(distances@, j) by { lemma_run_max_mono(iter@, i, j); assert(dm(distances@, i) == run_max(iter@, i)); assert(dm(distances@, j) == run_max(iter@, j)); }
+        }
+//@-
+        Curve {
+            min_distance: distances,
+        }
+    }
+//@end
+}
+} // verus!
